@@ -54,6 +54,14 @@ claimed["C15"] = dict(
     technique="deterministic simulation: controlled map-iteration order and Layouter call histories, equality of results across orders and repetitions",
 )
 
+claimed["C07"] = dict(
+    level="exploration",
+    text="Seeded search over (tables after storage faults, call histories): generated GSUB/GPOS/GDEF tables - mostly 'wild' shapes with out-of-range indices, empty replacements, self reference and more nested actions than the engine's budget - go through encode, the stored-data fault catalogue and gtab.Read/gdef.Read, so every table used is one the reader delivers; one Context and one Layouter then receive several calls. Oracles per call: no panic, a deterministic step budget (termination), text conservation as a multiset of runes, an output-length cap, equality with the same call on a fresh Context/Layouter (history independence) and under a second map order.",
+    design="3 C07",
+    note="Trusted: the step counter inserted by the rewriter (budget 2e8 per call), the fault catalogue, the typed deep comparison. Tables with vertical advance, device offsets or GPOS type 5 are excluded as the property says. 'Output length within what the matched substitutions can produce' is only checked against a generous cap (1e6 glyphs).",
+    technique="deterministic simulation: stored-data fault injection between encode and read, seeded call histories on one Context/Layouter compared with fresh-context reference runs, deterministic step budget",
+)
+
 pending = {k: PENDING_REASON for k in ["C01", "C02", "C03", "C07", "C15", "C16", "C18", "C19", "C20"] if k not in claimed}
 
 not_applicable = {
